@@ -790,6 +790,12 @@ def run(ctx):
     cases.append(dict(kind=kind, spec=s, expr=expr, pop=pop, seed=rng.randint(0, 10 ** 6) if seed is None else seed))
   for name, s, expr, pop, seed in CORPUS:
     add('corpus:' + name, s, expr, pop, seed)
+  # open findings: the witness is replayed first; when it still fails the run prints KNOWN-FINDING
+  for f in ctx.open_findings():
+    w = f.get('witness', {})
+    if w.get('kind') == 'evolution-loop':
+      for sig, what in evolution_loop_check(w['spec'], w['replay_expr'], w['seed'], w['rewards']):
+        ctx.hit(sig, what, dict(kind='evolution-loop', spec=w['spec'], expr=w['replay_expr'], seed=w['seed'], rewards=w['rewards']))
   # (A) systematic: every operator class x parameterisation x specification family
   sels, muts, recs, recs2 = prim_catalog()
   fam = [('mode', s) for s in mode_specs()]
@@ -1009,7 +1015,8 @@ def evolution_loop_check(spec_t, expr, seed, rewards, init=4, keep=6):
 
 def evolution_loop_sweep(ctx, rng, n):
   specs = [s for s in mode_specs() if not any(p[0] == 'X' for p in s[1])][:40]
-  fixed = [[1], [13, [2, 2], P([1, [0, NW_ALL]])], [15, 3, [P([1, [0, NW_ALL]])], []], [9, 0, P([1, [0, NW_ALL]])],
+  fixed = [[2, P([1, [0, NW_ALL]]), P([0, [0, [0, 3], 1]])],       # Uniform >> Random(3, replacement=True): the same new object several times
+           [1], [13, [2, 2], P([1, [0, NW_ALL]])], [15, 3, [P([1, [0, NW_ALL]])], []], [9, 0, P([1, [0, NW_ALL]])],
            [2, P([0, [0, [0, 2], 0]]), [13, [1, 2], P([2, [1, 1]])]], [2, [2, P([0, [0, [0, 3], 0]]), P([0, [3, [0, 1], 0]])], P([1, [0, NW_ALL]])]]
   done = 0
   for i in range(n):
